@@ -117,6 +117,12 @@ type c07World struct {
 	Reg  []hcRawEntry
 }
 
+var (
+	c07RefMem = c07BuildMem(0)
+	c07Prov1  = hcHash(hcPeekRaw(c07RefMem, c07RO, 1))
+	c07Prov32 = hcHash(hcPeekRaw(c07RefMem, c07RO, 32))
+)
+
 var c07OuterProgram = func() *Program {
 	var a hcAsm
 	a.Ecalli(12)
@@ -130,11 +136,11 @@ var c07OuterProgram = func() *Program {
 
 func c07Build(mem, svc int) *c07World {
 	w := &c07World{Mem: c07BuildMem(mem), Gas: c07GasInit}
-	roMem := c07BuildMem(0) // contents of the designed data, independent of the world
+	roMem := c07RefMem // contents of the designed data, independent of the world (never written)
 	k1 := string(hcPeekRaw(roMem, c07RO, 1))
 	k32 := string(hcPeekRaw(roMem, c07RO, 32))
-	prov1 := hcHash(hcPeekRaw(roMem, c07RO, 1))
-	prov32 := hcHash(hcPeekRaw(roMem, c07RO, 32))
+	prov1 := c07Prov1
+	prov32 := c07Prov32
 	storage := map[string][]byte{k1: []byte("v-1"), k32: make([]byte, 40)}
 	lookups := map[types.LookupMetaMapkey]types.TimeSlotSet{
 		{Hash: c07H1, Length: 50}: {5},
@@ -170,8 +176,8 @@ func c07Build(mem, svc int) *c07World {
 	accounts := types.ServiceAccountState{c07Caller: caller}
 	ps := types.PartialStateSet{
 		ServiceAccounts: accounts,
-		ValidatorKeys:   make(types.ValidatorsData, types.ValidatorsCount),
-		Authorizers:     types.AuthQueues{make(types.AuthQueue, types.AuthQueueSize), make(types.AuthQueue, types.AuthQueueSize)},
+		ValidatorKeys:   make(types.ValidatorsData, 1),
+		Authorizers:     types.AuthQueues{make(types.AuthQueue, 2), make(types.AuthQueue, 1)},
 		Assign:          types.ServiceIDList{0, 0},
 		AlwaysAccum:     types.AlwaysAccumulateMap{7: 9},
 	}
@@ -232,7 +238,7 @@ func c07Build(mem, svc int) *c07World {
 		var rg Registers
 		rg[7], rg[8], rg[9] = c07Blob, uint64(len(c07InnerBlob())), 3
 		g := Gas(100)
-		out, p, _, _ := hcCall(machine, MachineOp, &rg, roMem, &g, &tmp, RefineOmegas)
+		out, p, _, _ := hcCall(machine, MachineOp, &rg, c07BuildMem(0), &g, &tmp, RefineOmegas)
 		if p || out.ExitReason != ExitContinue || rg[7] != 1 {
 			panic("c07: machine() did not create inner machine 1")
 		}
